@@ -7,16 +7,21 @@ import vlib
 SPEC_DIR = os.path.join(vlib.SPEC, "ledger")
 
 
-def _seeded_cfg(base, seed):
+def _seeded_cfg(base, seed, eras=None, tag=""):
     """The .cfg of the tier with `Seed` set to VERIF_SEED (the sample of the grid
-    is drawn inside the specification from that constant)."""
+    is drawn inside the specification from that constant) and, optionally, `Eras`
+    narrowed to one group (the thorough tier runs one TLC per group of eras)."""
     with open(os.path.join(SPEC_DIR, base)) as f:
         txt = f.read()
     txt, n = re.subn(r"Seed\s*=\s*\d+", "Seed = %d" % (abs(int(seed)) % 1000000), txt)
     if n != 1:
         raise vlib.MachineryError("cannot set Seed in %s" % base)
+    if eras:
+        txt, n = re.subn(r"Eras\s*=\s*\{[^}]*\}", "Eras = {%s}" % ", ".join('"%s"' % e for e in eras), txt)
+        if n != 1:
+            raise vlib.MachineryError("cannot set Eras in %s" % base)
     d = vlib.scratch("c27cfg-")
-    name = base.replace(".cfg", "_seeded.cfg")
+    name = base.replace(".cfg", "_seeded%s.cfg" % tag)
     path = os.path.join(d, name)
     with open(path, "w") as f:
         f.write(txt)
@@ -102,17 +107,33 @@ def run(chk, replay=None):
         return
 
     base = "ValueConservation.cfg" if chk.tier == "quick" else "ValueConservationThorough.cfg"
-    path, name = _seeded_cfg(base, chk.seed)
-    r = vlib.run_tlc("ledger/ValueConservation", cfg=name, files=[path],
-                     timeout=240 if chk.tier == "quick" else 1500, heap="4g",
-                     env={"JAVA_TOOL_OPTIONS": "-XX:ParallelGCThreads=2"})
-    vlib.tlc_must_pass(r, "ValueConservation (%s, seed %s)" % (base, chk.seed))
-    chk.add_tlc("%s Seed=%s" % (base, chk.seed), r)
-    cases = os.path.join(r.dir, "cases.ndjson")
-    rows = vlib.read_ndjson(cases)
-    if len(rows) != r.distinct or not rows:
-        # every emitted row must have been a checked state and vice versa
-        raise vlib.MachineryError("TLC checked %d cases but emitted %d rows" % (r.distinct, len(rows)))
+    # quick: one TLC run over all eras; thorough: one run per group of eras, side by side
+    groups = [None] if chk.tier == "quick" else [["shelley", "allegra"], ["mary", "alonzo"], ["babbage"],
+                                                 ["conway"], ["dijkstra"]]
+
+    def model_check(i):
+        g = groups[i]
+        path, name = _seeded_cfg(base, chk.seed, g, "_%d" % i)
+        r = vlib.run_tlc("ledger/ValueConservation", cfg=name, files=[path],
+                         timeout=240 if chk.tier == "quick" else 900, heap="3g",
+                         env={"JAVA_TOOL_OPTIONS": "-XX:ParallelGCThreads=2"})
+        return g, r
+
+    from concurrent.futures import ThreadPoolExecutor
+    with ThreadPoolExecutor(max_workers=3) as ex:
+        results = list(ex.map(model_check, range(len(groups))))
+    rows = []
+    for g, r in results:
+        what = "%s Seed=%s%s" % (base, chk.seed, " Eras=" + "+".join(g) if g else "")
+        vlib.tlc_must_pass(r, what)
+        chk.add_tlc(what, r)
+        part = vlib.read_ndjson(os.path.join(r.dir, "cases.ndjson"))
+        if len(part) != r.distinct or not part:
+            # every emitted row must have been a checked state and vice versa
+            raise vlib.MachineryError("%s: TLC checked %d cases but emitted %d rows" % (what, r.distinct, len(part)))
+        rows += part
+    cases = os.path.join(vlib.scratch("c27cases-"), "cases.ndjson")
+    vlib.write_ndjson(cases, rows)
     eras = sorted({x["era"] for x in rows})
     chk.extra["c27_cases_per_era"] = {e: sum(1 for x in rows if x["era"] == e) for e in eras}
     chk.extra["c27_reference_accepts"] = sum(1 for x in rows if x["accept"])
